@@ -3,6 +3,8 @@
 A path is identified by the list of decisions taken at symbolic choice points.  The
 function under verification is re-executed from fresh inputs for each path.
 """
+import os
+
 try:
     import z3
 except ImportError:      # replays run under the repository's interpreter, without z3
@@ -42,14 +44,25 @@ class QFrame:
 FEAS_TIMEOUT_MS = 5000
 MUST_HOLD_TIMEOUT_MS = 1000     # entailment probes (piece sharing, short-circuit sites): `unknown` is "not entailed" (sound)
 SITE_TIMEOUT_MS = 500
+INCREMENTAL_TIMEOUT_MS = 1000
 
 
 def _conjuncts(t):
+    """top-level conjuncts, looking through double negation and negated disjunctions"""
     if z3.is_and(t):
         out = []
         for c in t.children():
             out.extend(_conjuncts(c))
         return out
+    if z3.is_not(t):
+        x = t.arg(0)
+        if z3.is_not(x):
+            return _conjuncts(x.arg(0))
+        if z3.is_or(x):
+            out = []
+            for c in x.children():
+                out.extend(_conjuncts(z3.Not(c)))
+            return out
     return [t]
 
 
@@ -68,13 +81,121 @@ def _has_quantifier(t):
     return False
 
 
+_ARITH_OPS = None
+
+
+def _arith_ops():
+    global _ARITH_OPS
+    if _ARITH_OPS is None:
+        _ARITH_OPS = {z3.Z3_OP_ADD, z3.Z3_OP_SUB, z3.Z3_OP_MUL, z3.Z3_OP_UMINUS, z3.Z3_OP_LE, z3.Z3_OP_LT,
+                      z3.Z3_OP_GE, z3.Z3_OP_GT, z3.Z3_OP_EQ, z3.Z3_OP_DISTINCT, z3.Z3_OP_ITE, z3.Z3_OP_AND,
+                      z3.Z3_OP_OR, z3.Z3_OP_NOT, z3.Z3_OP_IMPLIES, z3.Z3_OP_IFF, z3.Z3_OP_TRUE, z3.Z3_OP_FALSE,
+                      z3.Z3_OP_ANUM, z3.Z3_OP_IDIV, z3.Z3_OP_MOD}
+    return _ARITH_OPS
+
+
+def is_length_arith(t, _memo=None):
+    """t is built from integer arithmetic, propositional structure, integer/boolean constants and
+    lengths of strings only (the strings themselves are not inspected)."""
+    if _memo is None:
+        _memo = {}
+    i = t.get_id()
+    r = _memo.get(i)
+    if r is not None:
+        return r
+    r = False
+    if z3.is_quantifier(t) or not z3.is_app(t):
+        r = False
+    elif not (z3.is_int(t) or z3.is_bool(t)):
+        r = False
+    else:
+        k = t.decl().kind()
+        if k == z3.Z3_OP_SEQ_LENGTH:
+            r = True
+        elif k == z3.Z3_OP_UNINTERPRETED:
+            # a constant, or an application of an uninterpreted function (an opaque integer / boolean term: its
+            # arguments are not inspected, the solver keeps congruence for syntactically equal arguments)
+            r = True
+        elif k in _arith_ops():
+            r = all(is_length_arith(c, _memo) for c in t.children())
+    _memo[i] = r
+    return r
+
+
+_ATOMS = {}      # term id -> (term, propositional constant): atoms that are not about lengths
+
+
+def _atom(t):
+    """The propositional constant that stands for the atom t in the length abstraction, and the consequences of t
+    (resp. of its negation) for lengths: (constant, [side facts])."""
+    i = t.get_id()
+    ent = _ATOMS.get(i)
+    if ent is None:
+        ent = (t, z3.Bool('atom!%d' % i))
+        _ATOMS[i] = ent          # (keeps t alive: its id is not reused)
+    b = ent[1]
+    side = []
+    if z3.is_app(t):
+        k = t.decl().kind()
+        if k == z3.Z3_OP_EQ and z3.is_string(t.arg(0)):
+            side.append(z3.Implies(b, z3.Length(t.arg(0)) == z3.Length(t.arg(1))))
+        elif k in (z3.Z3_OP_SEQ_PREFIX, z3.Z3_OP_SEQ_SUFFIX):
+            side.append(z3.Implies(b, z3.Length(t.arg(0)) <= z3.Length(t.arg(1))))
+        elif k == z3.Z3_OP_SEQ_CONTAINS:
+            side.append(z3.Implies(b, z3.Length(t.arg(1)) <= z3.Length(t.arg(0))))
+    return b, side
+
+
+def length_abstraction(t, side=None):
+    """The length abstraction of a quantifier-free formula: its propositional structure is kept, atoms about
+    integers and string lengths are kept, every other atom becomes a propositional constant (the same constant
+    for the same atom) with its consequences for lengths (`a == b` ==> equal lengths, prefix / contains ==>
+    not longer) collected in `side`.  Every model of a set of formulas gives a model of their abstractions, so
+    what the abstraction entails is entailed."""
+    if side is None:
+        side = []
+    if is_length_arith(t):
+        return t
+    if z3.is_quantifier(t) or not z3.is_app(t) or not z3.is_bool(t):
+        return None
+    k = t.decl().kind()
+    if k in (z3.Z3_OP_AND, z3.Z3_OP_OR, z3.Z3_OP_NOT, z3.Z3_OP_IMPLIES, z3.Z3_OP_IFF) or \
+            (k == z3.Z3_OP_EQ and z3.is_bool(t.arg(0))) or (k == z3.Z3_OP_ITE):
+        parts = []
+        for c in t.children():
+            x = length_abstraction(c, side)
+            if x is None:
+                return None
+            parts.append(x)
+        if k == z3.Z3_OP_AND:
+            return z3.And(*parts)
+        if k == z3.Z3_OP_OR:
+            return z3.Or(*parts)
+        if k == z3.Z3_OP_NOT:
+            return z3.Not(parts[0])
+        if k == z3.Z3_OP_IMPLIES:
+            return z3.Implies(parts[0], parts[1])
+        if k == z3.Z3_OP_ITE:
+            return z3.If(parts[0], parts[1], parts[2])
+        return parts[0] == parts[1]
+    b, more = _atom(t)
+    side.extend(more)
+    return b
+
+
 class PathState:
     def __init__(self, prefix, stats):
         self.prefix = list(prefix)
         self.decisions = []
         self.pending = []          # alternative prefixes discovered on this run
         self.solver = z3.Solver()
-        self.solver.set('timeout', FEAS_TIMEOUT_MS)
+        self.solver.set('timeout', INCREMENTAL_TIMEOUT_MS)
+        self._incremental_lost = 0 # number of `unknown` answers of the incremental solver on this path
+        self._fresh_timeout = FEAS_TIMEOUT_MS
+        self.established = {}      # ids of terms that are conjuncts of the (unscoped) path condition
+        self._not_established = {} # term id -> len(pc) when it was last found not to be entailed
+        self.len_solver = z3.Solver()   # integers and string lengths only (abstraction of pc): boundary questions
+        self.len_solver.set('timeout', 2000)
         self.pc = []               # permanent conjuncts (z3 terms)
         self.scopes = []           # temporary assumptions (merge scopes)
         self.counters = {}
@@ -150,22 +271,94 @@ class PathState:
         # (string) formulas is where solvers get lost; dropping facts there only over-approximates
         # the set of explored paths, the obligations are always proved from the full `pc`.
         for c in _conjuncts(t):
+            self.established[c.get_id()] = c
             if not _has_quantifier(c):
                 self.solver.add(c)
+                side = []
+                la = length_abstraction(c, side)
+                if la is not None:
+                    self.len_solver.add(la)
+                for f in side:
+                    self.len_solver.add(f)
+
+    def is_established(self, t):
+        """t (the condition of a merge scope that has been left) is known to hold on this path: it is a
+        conjunct of the path condition, or entailed by it (checked once the path condition has grown)."""
+        i = t.get_id()
+        if i in self.established:
+            return True
+        if any(x.get_id() == i for x in self.scopes):
+            return True
+        if self._not_established.get(i) == len(self.pc):
+            return False
+        cs = _conjuncts(t)
+        if len(cs) > 1 and all(self.is_established(c) for c in cs):
+            self.established[i] = t
+            return True
+        if not _has_quantifier(t) and self.must_hold(t):
+            self.established[i] = t
+            return True
+        self._not_established[i] = len(self.pc)
+        return False
+
+    def reset_pc(self, keep):
+        """Replace the path condition by a subset of its conjuncts (forgetting facts is sound: obligations
+        are proved from what remains)."""
+        self.pc[:] = list(keep)
+        self.solver = z3.Solver()
+        self.solver.set('timeout', INCREMENTAL_TIMEOUT_MS)
+        self.len_solver = z3.Solver()
+        self.len_solver.set('timeout', 2000)
+        for t in self.pc:
+            for c in _conjuncts(t):
+                if not _has_quantifier(c):
+                    self.solver.add(c)
+                    side = []
+                    la = length_abstraction(c, side)
+                    if la is not None:
+                        self.len_solver.add(la)
+                    for f in side:
+                        self.len_solver.add(f)
 
     def check(self, *extra, timeout_ms=None):
         """sat / unsat / unknown of pc + scopes + extra."""
         self.stats['feasibility_queries'] = self.stats.get('feasibility_queries', 0) + 1
         import time as _t
         t0 = _t.time()
-        if timeout_ms is not None:
-            self.solver.set('timeout', timeout_ms)
-        try:
-            r = self.solver.check(*([x for x in self.scopes if not _has_quantifier(x)] + list(extra)))
-        finally:
+        assumptions = [x for x in self.scopes if not _has_quantifier(x)] + list(extra)
+        if self._incremental_lost < 3:
             if timeout_ms is not None:
-                self.solver.set('timeout', FEAS_TIMEOUT_MS)
+                self.solver.set('timeout', timeout_ms)
+            try:
+                r = self.solver.check(*assumptions)
+            finally:
+                if timeout_ms is not None:
+                    self.solver.set('timeout', INCREMENTAL_TIMEOUT_MS)
+            if r == z3.unknown and timeout_ms is None:
+                self._incremental_lost += 1
+        else:
+            r = z3.unknown
+        if r == z3.unknown:
+            # z3's incremental mode is much weaker on strings than a fresh solver on the same assertions
+            fresh = z3.Solver()
+            fresh.set('timeout', self._fresh_timeout if timeout_ms is None else min(timeout_ms, self._fresh_timeout))
+            fresh.add(self.solver.assertions())
+            fresh.add(*assumptions)
+            r = fresh.check()
+            if r == z3.unknown and timeout_ms is None:
+                # the path condition is beyond the solver: do not spend the full budget on every later question
+                # of this path (unknown = explore, which is sound)
+                self._fresh_timeout = max(300, self._fresh_timeout // 2)
         dt = _t.time() - t0
+        if dt > 1.0 and os.environ.get('PYVC_DUMP_SLOW'):
+            k = self.stats.get('n_dumped', 0)
+            self.stats['n_dumped'] = k + 1
+            if k < 5:
+                sv = z3.Solver()
+                sv.add(self.solver.assertions())
+                sv.add(*([x for x in self.scopes if not _has_quantifier(x)] + list(extra)))
+                with open(os.path.join(os.environ['PYVC_DUMP_SLOW'], 'slow%d.smt2' % k), 'w') as f:
+                    f.write('; %s %.2fs\n' % (r, dt) + sv.to_smt2())
         if dt > 1.0:
             self.stats.setdefault('slow_queries', []).append((round(dt, 2), str(r), [str(e)[:200] for e in extra]))
             import os as _os
@@ -204,6 +397,43 @@ class PathState:
         r = self.check(z3.Not(t), timeout_ms=timeout_ms)
         return r == z3.unsat
 
+    def _len_check(self, t):
+        sc = []
+        for x in self.scopes:
+            la = length_abstraction(x, sc)
+            if la is not None:
+                sc.append(la)
+        self.stats['length_queries'] = self.stats.get('length_queries', 0) + 1
+        return self.len_solver.check(*(sc + [t]))
+
+    def _fork_by_lengths(self, t):
+        """A branch condition about integers / string lengths that the length abstraction of the path
+        condition already decides: (can_be_true, can_be_false), else None."""
+        if not is_length_arith(t):
+            return None
+        rt = self._len_check(t)
+        if rt == z3.unsat:
+            return (False, True)
+        rf = self._len_check(z3.Not(t))
+        if rf == z3.unsat:
+            return (True, False)
+        return None
+
+    def must_hold_lengths(self, t):
+        """Entailment of a question about integers and string lengths, decided on the length abstraction of
+        the path condition (sound: the abstraction is implied by the path condition; string facts beyond
+        lengths are not used).  Fast and independent of the string solver."""
+        if not is_length_arith(t):
+            return self.must_hold(t)
+        self.stats['length_queries'] = self.stats.get('length_queries', 0) + 1
+        sc = []
+        for x in self.scopes:
+            la = length_abstraction(x, sc)
+            if la is not None:
+                sc.append(la)
+        r = self.len_solver.check(*(sc + [z3.Not(t)]))
+        return r == z3.unsat
+
     # ---- decisions --------------------------------------------------------------
     def _next_decision(self):
         i = len(self.decisions)
@@ -239,8 +469,12 @@ class PathState:
             if k is not None:
                 can_t, can_f = k, not k
             else:
-                can_t = self.is_feasible(t)
-                can_f = self.is_feasible(z3.Not(t)) if can_t else True
+                quick = self._fork_by_lengths(t)
+                if quick is not None:
+                    can_t, can_f = quick
+                else:
+                    can_t = self.is_feasible(t)
+                    can_f = self.is_feasible(z3.Not(t)) if can_t else True
                 if can_t != can_f:
                     self._record_known(t, can_t)
             if can_t and can_f:
@@ -296,11 +530,12 @@ class PathState:
         self.scopes.append(conds[ld])
         return ld
 
-    def choose(self, n, conds=None):
-        """n-way decision.  ``conds[i]`` (optional) is the z3 condition of alternative i."""
+    def choose(self, n, conds=None, assume_feasible=False):
+        """n-way decision.  ``conds[i]`` (optional) is the z3 condition of alternative i.
+        assume_feasible: do not ask the solver which alternatives are feasible (the caller filtered them)."""
         d = self._next_decision()
         if d is None or d == FORCE_FORK:
-            feas = [i for i in range(n) if conds is None or self.is_feasible(conds[i])]
+            feas = [i for i in range(n) if conds is None or assume_feasible or self.is_feasible(conds[i])]
             if not feas:
                 raise PathAbort()
             if len(feas) > 1 and self.no_fork:
@@ -333,6 +568,9 @@ class PathState:
             r = 'T' if k else 'N'
         elif _has_quantifier(t):
             r = 'U'
+        elif self._fork_by_lengths(t) is not None:
+            r = 'T' if self._fork_by_lengths(t)[0] else 'N'
+            self._record_known(t, r == 'T')
         elif self.must_hold(t, SITE_TIMEOUT_MS):
             r = 'T'
             self._record_known(t, True)
